@@ -2,7 +2,7 @@
    (or a one-line instantiation) and followed by Print Assumptions.  One file per property, importing only
    what that property's statements need, so that a change which breaks one property's proof leaves the
    others' theorems checkable. *)
-From NTRIP Require Import Base Bits Time Classify Frame FrameSpec FrameProofs Net Pipe PipeFrames.
+From NTRIP Require Import Base Bits Time Classify Frame FrameSpec FrameProofs Net Pipe PipeFrames IncFrame PipeInc.
 
 (* ===================== C02 ===================== *)
 (* For every finite byte stream the stream handler returns (no panic, fuel suffices) and the
@@ -35,6 +35,24 @@ Theorem C02_every_schedule : forall t0 (input : list N) (sync : nat -> bool) cap
      closed (nth 1 (chans c) (dchan _)) = true).
 Proof. exact lossless_every_schedule. Qed.
 Print Assumptions C02_every_schedule.
+
+(* The same with the framer as it really works: the byte-driven machine of IncFrame.v, which emits
+   each message as soon as the byte that completes it has arrived and the rest at the end of the input. *)
+Theorem C02_every_schedule_incremental : forall t0 (input : list N) (sync : nat -> bool) cap0 cap1 capc,
+  (1 <= cap0)%nat -> (1 <= cap1)%nat -> (1 <= capc)%nat ->
+  exists n, forall m c,
+    steps _ (nstep _ _ _ (Pipe.prog N msg mstate mstep mflush 1 (fun _ => true) sync)
+                   Pipe.sender Pipe.receiver (SkDone _ _ _)) m
+          (Pipe.init N msg mstate 1 cap0 cap1 [capc] input (new_handler t0, PEat [])) c ->
+    (m <= n)%nat /\
+    (final_config _ _ _ (Pipe.prog N msg mstate mstep mflush 1 (fun _ => true) sync)
+                  Pipe.sender Pipe.receiver (SkDone _ _ _) c ->
+     concat (map raw (sink_out N msg mstate c 0)) = input /\
+     Forall (fun x => raw x <> []) (sink_out N msg mstate c 0) /\
+     halted N msg mstate mstep mflush 1 (fun _ => true) sync c 1 /\
+     closed (nth 1 (chans c) (dchan _)) = true).
+Proof. exact lossless_incremental. Qed.
+Print Assumptions C02_every_schedule_incremental.
 
 Example C02_example :
   exists ms h', handle_stream (new_handler 0) [65; 211; 66; 67; 68; 69; 211]%N = Ok (ms, h') /\
